@@ -2,6 +2,7 @@ package server
 
 import (
 	"encoding/base64"
+	"errors"
 	"sync"
 	"sync/atomic"
 	"time"
@@ -14,6 +15,10 @@ import (
 )
 
 const defaultUploadInterval = 1 * time.Minute
+
+// ErrNonPositiveRate is returned by GetUser for a user whose stored UpRate or DownRate is not positive:
+// a token bucket cannot be built for such a rate
+var ErrNonPositiveRate = errors.New("user's bandwidth rates must be positive")
 
 // userPanel is used to authenticate new users and book keep active users
 type userPanel struct {
@@ -72,6 +77,9 @@ func (panel *userPanel) GetUser(UID []byte) (*ActiveUser, error) {
 	upRate, downRate, err := panel.Manager.AuthenticateUser(UID)
 	if err != nil {
 		return nil, err
+	}
+	if upRate <= 0 || downRate <= 0 {
+		return nil, ErrNonPositiveRate
 	}
 	valve := mux.MakeValve(upRate, downRate)
 	user := &ActiveUser{
